@@ -100,7 +100,7 @@ struct inner_product_impl< Eigen::Matrix<T, N, 1> >
 {
     typedef T return_type;
     static T get(const Eigen::Matrix<T, N, 1> &x, const Eigen::Matrix<T, N, 1> &y) {
-        return x.adjoint() * y;
+        return y.dot(x);
     }
 };
 
@@ -111,7 +111,7 @@ struct inner_product_impl< Eigen::Matrix<T, N, M> >
     typedef Eigen::Matrix<T, M, M> return_type;
 
     static return_type get(const Eigen::Matrix<T, N, M> &x, const Eigen::Matrix<T, N, M> &y) {
-        return x.adjoint() * y;
+        return x.transpose() * y.conjugate();
     }
 };
 
